@@ -41,3 +41,17 @@ for _c in ("and_iterator", "or_iterator", "xor_iterator", "sub_iterator", "lshif
     field(_c + ".a_fiber", "Fiber")
     field(_c + ".b_fiber", "Fiber")
 field("lshift_iterator.spec_pos", "opt[int]")
+
+# splitter helper classes (defined inside the split methods)
+field("_SplitterUniform.fiber", "Fiber")
+field("_SplitterUniform.step", "int")
+field("_SplitterUniform.pre_halo", "int")
+field("_SplitterUniform.post_halo", "int")
+field("_SplitterUniform.relative", "bool")
+field("_SplitterNonUniform_iter.fiber", "Fiber")
+field("_SplitterNonUniform_iter.pre_halo", "int")
+field("_SplitterNonUniform_iter.post_halo", "int")
+field("_SplitterNonUniform_iter.relative", "bool")
+field("_SplitterNonUniform_iter.splits", "list[int]")
+field("Fiber.g_active0", "int")      # ghost: the active range getActive() reports (owner/attrs delegation abstracted)
+field("Fiber.g_active1", "int")
